@@ -43,6 +43,9 @@ class C17(L1Prop):
             ysrc = r.choice(["default", "default", f"flag:{dk}", f"env:{dk}"])
             v6 = (not same_port) and k % 5 == 4
             boot = f"boot listen={lsrc}:{nl}{'h' if same_port else ('6' if v6 else '')} log={['error', 'debug', 'trace'][k % 3]} dir={dsrc} allow={allow} versions={vsrc} days={ysrc}"
+            if k % 6 == 5:
+                # every switch the executable advertises beyond the options the model knows, switched on
+                boot += f" extra=auto:{'flag' if k % 12 == 5 else 'env'}"
             ops = [boot]
             # every third configuration: another connection to the database stays open throughout (a
             # backup tool, a second worker), so that nothing is checkpointed when requests finish and
